@@ -127,5 +127,78 @@ theorem pushed_notifyRecv_sstep {a b : Stream} (h : InertR a b) : SStep b.notify
   unfold Streams.recvRecvHeaders; step_grind
 @[grind ←] theorem recvRecvTrailers_acc (k : Nat) (hd : HeadersIn) (h : Step cx s0 s) : Step cx s0 (s.recvRecvTrailers k hd).1 := by
   unfold Streams.recvRecvTrailers; step_grind
+theorem setStream_acc2 (k : Nat) (b : Stream) (hb : SStep [] (s.stream k) b) (h : Step cx s0 s) :
+    Step cx s0 (s.setStream b) := by
+  have := setStream_wake_acc k b [] hb h
+  have e : (s.setStream b).wake [] = s.setStream b := by simp [Streams.wake]
+  rwa [e] at this
+grind_pattern setStream_acc2 => SStep [] (s.stream k) b, Step cx s0 (s.setStream b)
+
+@[grind →] theorem decContentLength_inert {a b : Stream} {n : Nat} (h : a.decContentLength n = some b) : Inert a b := by
+  unfold Stream.decContentLength at h
+  split at h
+  · split at h
+    · cases h; inert
+    · cases h
+  · split at h
+    · cases h
+    · cases h; inert
+  · cases h; inert
+
+@[grind ←] theorem recvRecvData_acc (k : Nat) (p : Bytes) (eos : Bool) (pad : Option Nat) (h : Step cx s0 s) :
+    Step cx s0 (s.recvRecvData k p eos pad).1 := by
+  unfold Streams.recvRecvData; step_grind
+@[grind ←] theorem recvRecvPushPromise_acc (k : Nat) (hd : HeadersIn) (h : Step cx s0 s) :
+    Step cx s0 (s.recvRecvPushPromise k hd).1 := by
+  unfold Streams.recvRecvPushPromise; step_grind
+@[grind ←] theorem recvNextIncoming_acc (h : Step cx s0 s) : Step cx s0 s.recvNextIncoming.1 := by
+  unfold Streams.recvNextIncoming; step_grind
+@[grind ←] theorem recvTakeRequest_acc (k : Nat) (h : Step cx s0 s) : Step cx s0 (s.recvTakeRequest k).1 := by
+  unfold Streams.recvTakeRequest; step_grind
+@[grind ←] theorem recvRecvReset_acc (k : Nat) (r : Reason) (h : Step cx s0 s) : Step cx s0 (s.recvRecvReset k r).1 := by
+  unfold Streams.recvRecvReset; step_grind
+@[grind ←] theorem recvHandleError_acc (k : Nat) (e : PErr) (h : Step cx s0 s) : Step cx s0 (s.recvHandleError k e) := by
+  unfold Streams.recvHandleError; step_grind
+@[grind ←] theorem recvGoAway_acc (l : Nat) (h : Step cx s0 s) : Step cx s0 (s.recvGoAway l) := by
+  unfold Streams.recvGoAway; step_grind
+@[grind ←] theorem recvRecvEof_acc (k : Nat) (h : Step cx s0 s) : Step cx s0 (s.recvRecvEof k) := by
+  unfold Streams.recvRecvEof; step_grind
+@[grind ←] theorem recvMaybeResetNextStreamId_acc (k : Nat) (h : Step cx s0 s) :
+    Step cx s0 (s.recvMaybeResetNextStreamId k) := by
+  unfold Streams.recvMaybeResetNextStreamId; step_grind
+@[grind ←] theorem enqueueResetExpiration_acc (k : Nat) (h : Step cx s0 s) : Step cx s0 (s.enqueueResetExpiration k) := by
+  unfold Streams.enqueueResetExpiration; step_grind
+@[grind ←] theorem sendPendingRefusal_acc (w : Writer) (h : Step cx s0 s) : Step cx s0 (s.sendPendingRefusal w).1 := by
+  unfold Streams.sendPendingRefusal; step_grind
+@[grind ←] theorem clearExpiredResetStreams_acc (n : Nat) (h : Step cx s0 s) :
+    Step cx s0 (Streams.clearExpiredResetStreams n s) := by
+  induction n generalizing s with
+  | zero => unfold Streams.clearExpiredResetStreams; exact h
+  | succ n ih => unfold Streams.clearExpiredResetStreams; step_grind
+@[grind ←] theorem clearStreamWindowUpdateQueue_acc (n : Nat) (h : Step cx s0 s) :
+    Step cx s0 (Streams.clearStreamWindowUpdateQueue n s) := by
+  induction n generalizing s with
+  | zero => unfold Streams.clearStreamWindowUpdateQueue; exact h
+  | succ n ih => unfold Streams.clearStreamWindowUpdateQueue; step_grind
+@[grind ←] theorem clearAllResetStreams_acc (n : Nat) (h : Step cx s0 s) : Step cx s0 (Streams.clearAllResetStreams n s) := by
+  induction n generalizing s with
+  | zero => unfold Streams.clearAllResetStreams; exact h
+  | succ n ih => unfold Streams.clearAllResetStreams; step_grind
+@[grind ←] theorem clearAllPendingAccept_acc (n : Nat) (h : Step cx s0 s) : Step cx s0 (Streams.clearAllPendingAccept n s) := by
+  induction n generalizing s with
+  | zero => unfold Streams.clearAllPendingAccept; exact h
+  | succ n ih => unfold Streams.clearAllPendingAccept; step_grind
+@[grind ←] theorem recvClearQueues_acc (b : Bool) (h : Step cx s0 s) : Step cx s0 (s.recvClearQueues b) := by
+  unfold Streams.recvClearQueues; step_grind
+@[grind ←] theorem sendConnectionWindowUpdate_acc (w : Writer) (h : Step cx s0 s) :
+    Step cx s0 (s.sendConnectionWindowUpdate w).1 := by
+  unfold Streams.sendConnectionWindowUpdate; step_grind
+@[grind ←] theorem sendStreamWindowUpdates_acc (n : Nat) (w : Writer) (h : Step cx s0 s) :
+    Step cx s0 (Streams.sendStreamWindowUpdates n s w).1 := by
+  induction n generalizing s w with
+  | zero => unfold Streams.sendStreamWindowUpdates; exact h
+  | succ n ih => unfold Streams.sendStreamWindowUpdates; step_grind
+@[grind ←] theorem recvBufferPending_acc (w : Writer) (h : Step cx s0 s) : Step cx s0 (s.recvBufferPending w).1 := by
+  unfold Streams.recvBufferPending; step_grind
 end
 end H2V.Lemmas.ConnWakeP
